@@ -529,14 +529,23 @@ def check_formulas(chk, F, cls):
     bld = F.func1(cls, "buildDerivativeCoefficients")
     chk.saw(bld)
     I, env, ret = interp(bld, oracle=lambda s, c, I_: False if "num_segments_" in str(c) and "<= 0" in pp(s["cond"]) else None)
-    ok = len(I.loops) == 1
+    if len(I.loops) != 1:
+        raise Broken("derivative-table builder of %s: expected one loop over the derivative order, found %d" % (cls, len(I.loops)))
+    ok = True
     det = ""
     if ok:
         L = I.loops[0]
         dv = L.var
         rows = [e for e in L.effects if isinstance(e.value, Vec)]
         copies = [e for e in L.effects if e.op == "=" and isinstance(e.value, tuple) and e.value[0] == "copy"]
-        ok = len(rows) == 1 and len(copies) == 1 and L.lo == 0 and sym.is_zero(L.hi - K) and L.step == 1 and L.cond_op == "<"
+        if not (len(rows) == 1 and len(copies) == 1 and L.step == 1 and L.cond_op == "<" and L.lo in (0, 1)):
+            raise Broken("derivative-table builder of %s has a shape this rule does not understand" % cls)
+        ok = sym.is_zero(L.hi - K)
+        if ok and L.lo == 1:
+            # the order-0 table stored on its own: ff(k, 0) = 1, so it is the coefficient matrix itself
+            d0 = [e for e in I.effects if e.op == "=" and e.target == "derivative_coeffs_[0]"]
+            ok = len(d0) == 1 and isinstance(d0[0].value, tuple) and d0[0].value[0] == "copy" and d0[0].value[1] == "coefficients_"
+            det = "order-0 table: %s ; " % ([(e.target, e.value) for e in d0],)
         if ok:
             e = rows[0]
             # the two loops nested inside the order loop, in whichever order: the one over [0, N) is the piece index,
@@ -559,7 +568,7 @@ def check_formulas(chk, F, cls):
                 want_key = sp.expand(sv * od + kk)
                 want = Vec.atom(("coefficients_", sp.expand(sv * K + kk + dv))).scale(FFn(kk + dv, dv))
                 ok = (sym.is_zero(e.key[0] - want_key) and e.value.add(want, -1).is_zero() and copies[0].target == "derivative_coeffs_[%s]" % sp.sstr(dv) and copies[0].value[1] == e.target)
-                det = "row %s = %r ; stored as %s" % (e.key[0], e.value, copies[0].target)
+                det += "row %s = %r ; stored as %s" % (e.key[0], e.value, copies[0].target)
     chk.ob("C03-R4", "%s builder: row k of piece seg in the order-d table = ff(k+d, d) * c_{k+d}, all d, pieces and k" % cls, ok, loc(bld), det, construct=cls + "/builder/rows")
     # derivative(): same rows, same breakpoints
     dr = F.func1(cls, "derivative")
